@@ -115,6 +115,28 @@ def directed():
         out.append(case(pol, "tasks", 0, [A], [O(1, A, 6)], [T("g1", 0, 9, [(A, 1)])], disc=3, plan_ahead=6, tag="ts_last_slot_occ"))
         out.append(case(pol, "tasks", 0, [[2, 1]], [O(1, A, 2)], [T("g1", 0, 4, [([2, 0], 2), (AB, 4)]), T("g2", 0, 4, [(A, 2)])], tag="ts_capacity_full"))
         out.append(case(pol, "tasks", 2, [A, B], [], [T("g1", 0, 8, [(A, 3)]), T("g2", 1, 8, [(A, 3), (B, 5)]), T("g3", 2, 6, [(B, 1)])], disc=2, tag="ts_disc2"))
+    # two strategies of different runtimes: only the FASTER one meets the deadline, possibly
+    # only at the latest slot deadline - fastest.rt (a model that prunes start slots with
+    # the slowest strategy's runtime / Task.remaining_time loses exactly these placements)
+    W2 = [2, 0]
+    for pol in POLICIES:
+        lb = 1 if pol == "ilp" else 0          # first allowed start after `now`
+        gap = 1 if pol == "ilp" else 0         # closed intervals need one more instant
+        for disc in ((1,) if pol == "ilp" else (1, 3)):
+            fast, slow = (2, 6) if disc == 1 else (3, 8)
+            two = [(W2, fast), (A, slow)]
+            # (a) idle worker, deadline < now + slowest.rt but >= now + fastest.rt
+            out.append(case(pol, "tasks", 0, [W2], [], [T("g1", 0, lb + fast + (0 if disc == 1 else 3), two)], disc=disc, tag=f"two_rt_idle_d{disc}"))
+            out.append(case(pol, "tasks", 2, [W2, A], [], [T("g1", 1, 2 + lb + fast + 1, two), T("g2", 2, 2 + lb + fast + 1, [(A, fast + 1)])], disc=disc, tag=f"two_rt_idle2_d{disc}"))
+            # (b) the early slots are held by a RUNNING occupant (just started: remaining =
+            # full runtime): only [deadline - fastest.rt] fits
+            hold = 4 if disc == 1 else 6
+            out.append(case(pol, "tasks", 0, [W2], [O(1, W2, hold)], [T("g1", 0, hold + gap + fast, two)], disc=disc, tag=f"two_rt_after_occupant_d{disc}"))
+            out.append(case(pol, "tasks", 0, [A, W2], [O(1, A, 9), O(2, W2, hold)], [T("g1", 0, hold + gap + fast, [(W2, fast), (A, slow + 1)])], disc=disc, tag=f"two_rt_after_occupant2_d{disc}"))
+            # (b') ... by a previously SCHEDULED task that has to stay placed (no retraction)
+            # and can only run first
+            must = T("g1", 0, lb + hold, [(W2, hold)], must={"w": 1, "s": 1, "start": lb})
+            out.append(case(pol, "tasks", 0, [W2], [], [must, T("g2", 0, lb + hold + gap + fast, two)], disc=disc, tag=f"two_rt_after_scheduled_d{disc}"))
     # minimal instances of the findings on the pinned tree (one per cause, see FLAGS)
     for pol in POLICIES:
         out.append(case(pol, "tasks", 3, [A], [O(1, A, 1, 4)], [T("g1", 3, 8, [(A, 2)])], tag="finding_occFull"))
@@ -158,6 +180,15 @@ def generate(policy, mode, n, r, max_tasks):
         tasks, g = [], 0
 
         def strat_list():
+            if r.random() < 0.35:
+                # a fast (wide) and a slow (narrow) strategy with clearly different runtimes
+                wide = [x for x in ([2, 0], [1, 1], [1, 0], [0, 1]) if _fits_some(x, caps)]
+                narrow = [x for x in ([1, 0], [0, 1]) if _fits_some(x, caps)]
+                if wide and narrow:
+                    f = r.choice([1, 2, 2, 3])
+                    pair = [(r.choice(wide[:2]), f), (r.choice(narrow), f + r.choice([2, 3, 4]))]
+                    r.shuffle(pair)
+                    return pair
             k = r.choice([1, 1, 2])
             sl = []
             for _ in range(k):
@@ -169,8 +200,11 @@ def generate(policy, mode, n, r, max_tasks):
                     sl.append(st)
             return sl
 
-        def deadline(rt, base):
-            kind = r.choice(["hopeless", "tight", "tight", "tight", "mid", "mid", "mid", "loose", "loose"])
+        def deadline(rt, base, sl=()):
+            kinds = ["hopeless", "tight", "tight", "tight", "mid", "mid", "mid", "loose", "loose"]
+            if len({x[1] for x in sl}) > 1:  # rt is the fastest runtime: often only the faster strategy meets the deadline
+                kinds = ["hopeless", "tight", "tight", "tight", "tight", "tight", "mid", "mid", "loose"]
+            kind = r.choice(kinds)
             if kind == "hopeless":
                 d = base + rt - r.choice([1, 2])
             elif kind == "tight":
@@ -202,21 +236,21 @@ def generate(policy, mode, n, r, max_tasks):
                 for _ in range(2 if shape == "pair" else 1):
                     sl = strat_list()
                     rt = min(x[1] for x in sl)
-                    tasks.append(T(gname, r.randint(0, now), deadline(rt, now), sl, virtual_child=(shape == "head")))
+                    tasks.append(T(gname, r.randint(0, now), deadline(rt, now, sl), sl, virtual_child=(shape == "head")))
             elif shape in ("chain2", "chain3"):
                 base, first = now, len(tasks) + 1
                 for k in range(2 if shape == "chain2" else 3):
                     sl = strat_list()
                     rt = min(x[1] for x in sl)
                     rel = r.randint(0, now) if k == 0 else r.choice([-1, -1, -1, now + 2, now + 4])
-                    tasks.append(T(gname, rel, deadline(rt, base), sl, parents=[] if k == 0 else [first + k - 1]))
+                    tasks.append(T(gname, rel, deadline(rt, base, sl), sl, parents=[] if k == 0 else [first + k - 1]))
                     base += rt + 1
             else:  # child of a running occupant
                 oi = r.randrange(len(occ))
                 occ[oi]["graph"] = gname
                 sl = strat_list()
                 rt = min(x[1] for x in sl)
-                tasks.append(T(gname, -1, deadline(rt, now + occ[oi]["rem"] + 1), sl, occ_parents=[oi + 1]))
+                tasks.append(T(gname, -1, deadline(rt, now + occ[oi]["rem"] + 1, sl), sl, occ_parents=[oi + 1]))
         # a previously SCHEDULED task that must stay placed (no retraction)
         if r.random() < 0.12:
             cand = [i for i, t in enumerate(tasks) if sum(1 for u in tasks if u["graph"] == t["graph"]) == 1 and not t["occParents"]
@@ -894,7 +928,7 @@ def run(tier: str) -> CheckResult:
     quick = tier == "quick"
     r = rng("c14")
     cases = directed()
-    per = {"ilp/tasks": 5, "ilp/graphs": 5, "tsg/tasks": 4, "tsg/graphs": 4, "tsc/tasks": 3} if quick else \
+    per = {"ilp/tasks": 5, "ilp/graphs": 5, "tsg/tasks": 7, "tsg/graphs": 6, "tsc/tasks": 5} if quick else \
         {"ilp/tasks": 520, "ilp/graphs": 520, "tsg/tasks": 340, "tsg/graphs": 340, "tsc/tasks": 240}
     for pm, n in per.items():
         pol, mode = pm.split("/")
